@@ -65,12 +65,20 @@ static Verdict check_coherence(const Case& c) {
     const Q exact_to = (Q)x * factor, exact_from = (Q)x / factor;
     if (in_normal_range(nt, exact_to) && in_normal_range(nt, (Q)x)) {
       const LD got = U->convert(x, idx, U->standard); evals++; if (factor != 1) nontriv++;
+      const LD got_static = U->convert_static(x, idx, U->standard);
+      const double es = err_ulps(nt, got_static, exact_to, exact_to);
+      if (x != 0 && !(es <= 4.0)) return Verdict::fail(fmt("%s: %s in the consistent unit %s of system %s is %s in the standard unit through the compile-time conversion; the product of the system's base units to the type's dimension exponents gives %s (%.3g ulp in %s, allowed 4)",
+                                                          U->name, decld(x).c_str(), U->unit_names[idx], S.name.c_str(), decld(got_static).c_str(), qstr(exact_to).c_str(), es, ntinfo(nt).name));
       const double e = err_ulps(nt, got, exact_to, exact_to);
       if (x != 0 && !(e <= 4.0)) return Verdict::fail(fmt("%s: %s in the consistent unit %s of system %s is %s in the standard unit; the product of the system's base units to the type's dimension exponents gives %s (%.3g ulp in %s, allowed 4)",
                                                          U->name, decld(x).c_str(), U->unit_names[idx], S.name.c_str(), decld(got).c_str(), qstr(exact_to).c_str(), e, ntinfo(nt).name));
     }
     if (in_normal_range(nt, exact_from) && in_normal_range(nt, (Q)x)) {
       const LD got = U->convert(x, U->standard, idx); evals++; if (factor != 1) nontriv++;
+      const LD got_static = U->convert_static(x, U->standard, idx);
+      const double es = err_ulps(nt, got_static, exact_from, exact_from);
+      if (x != 0 && !(es <= 4.0)) return Verdict::fail(fmt("%s: %s in the standard unit is %s in the consistent unit %s of system %s through the compile-time conversion; the base units of the system imply %s (%.3g ulp in %s, allowed 4)",
+                                                          U->name, decld(x).c_str(), decld(got_static).c_str(), U->unit_names[idx], S.name.c_str(), qstr(exact_from).c_str(), es, ntinfo(nt).name));
       const double e = err_ulps(nt, got, exact_from, exact_from);
       if (x != 0 && !(e <= 4.0)) return Verdict::fail(fmt("%s: %s in the standard unit is %s in the consistent unit %s of system %s; the base units of the system imply %s (%.3g ulp in %s, allowed 4)",
                                                          U->name, decld(x).c_str(), decld(got).c_str(), U->unit_names[idx], S.name.c_str(), qstr(exact_from).c_str(), e, ntinfo(nt).name));
@@ -339,7 +347,7 @@ int main(int argc, char** argv) {
   {
     Sub s; s.name = "c07.coherence"; s.property = "C07"; s.instances = ntypes * 3; s.n_quick = 60; s.n_thorough = 3000; s.run = check_coherence; s.instance_name = iname;
     s.gen = [ntypes](int inst) { return gen_case(inst, ntypes); };
-    s.rule = "value level: for every unit type x numeric type and each of the 4 systems, a generated value in the system's consistent unit converts to / from the standard unit (through the library's own conversion) by exactly "
+    s.rule = "value level: for every unit type x numeric type and each of the 4 systems, a generated value in the system's consistent unit converts to / from the standard unit (through the library's own run-time and compile-time conversions) by exactly "
              "L^a M^b T^c Theta^d of the system's base units (exact rationals from the system's abbreviation, __float128) within 4 ulp; non-trivial: factor != 1 and x != 0";
     subs.push_back(s);
   }
